@@ -4,11 +4,17 @@ against; re-proved against the facts regenerated from /repo on every run). -/
 namespace Tally.Tie.C17Frozen
 open Tally
 
+theorem body_prometheus__DefaultHistogramBuckets_unchanged : Facts.body_prometheus__DefaultHistogramBuckets = ["func() []float64", "return []float64{ ms, 2 * ms, 5 * ms, 10 * ms, 20 * ms, 50 * ms, 100 * ms, 200 * ms, 500 * ms, 1000 * ms, 2000 * ms, 5000 * ms, 10000 * ms, }"] := rfl
+
+theorem body_prometheus__DefaultSummaryObjectives_unchanged : Facts.body_prometheus__DefaultSummaryObjectives = ["func() map[float64]float64", "return map[float64]float64{ 0.5: 0.01, 0.75: 0.001, 0.95: 0.001, 0.99: 0.001, 0.999: 0.0001, }"] := rfl
+
 theorem body_prometheus__NewReporter_unchanged : Facts.body_prometheus__NewReporter = ["func(opts Options) Reporter", "if opts.Registerer == nil { opts.Registerer = prom.DefaultRegisterer } else { if reg, ok := opts.Registerer.(*prom.Registry); ok && opts.Gatherer == nil { opts.Gatherer = reg } }", "if opts.Gatherer == nil { opts.Gatherer = prom.DefaultGatherer }", "if opts.DefaultHistogramBuckets == nil { opts.DefaultHistogramBuckets = DefaultHistogramBuckets() }", "if opts.DefaultSummaryObjectives == nil { opts.DefaultSummaryObjectives = DefaultSummaryObjectives() }", "if opts.OnRegisterError == nil { opts.OnRegisterError = func(err error) { if strings.Contains(err.Error(), \"previously registered\") { err = errors.WithMessagef( err, \"potential tally.Scope() vs Prometheus usage contract mismatch: \"+ \"if this occurs after using Scope.Tagged(), different metric \"+ \"names must be used than were registered with the parent scope\", ) } panic(err) } }", "return &reporter{ registerer: opts.Registerer, gatherer: opts.Gatherer, timerType: opts.DefaultTimerType, buckets: opts.DefaultHistogramBuckets, objectives: opts.DefaultSummaryObjectives, onRegisterError: opts.OnRegisterError, counters: make(map[metricID]*prom.CounterVec), gauges: make(map[metricID]*prom.GaugeVec), timers: make(map[metricID]*promTimerVec), }"] := rfl
 
 theorem body_prometheus__canonicalMetricID_unchanged : Facts.body_prometheus__canonicalMetricID = ["func(name string, tagKeys []string) metricID", "keySet := make(map[string]string, len(tagKeys))", "for _, key := range tagKeys", "| keySet[key] = metricIDKeyValue", "return metricID(tally.KeyForPrefixedStringMap(name, keySet))"] := rfl
 
 theorem body_prometheus__keysFromMap_unchanged : Facts.body_prometheus__keysFromMap = ["func(m map[string]string) []string", "labelKeys := make([]string, len(m))", "i := 0", "for k, _ := range m", "| labelKeys[i] = k", "| i++", "return labelKeys"] := rfl
+
+theorem body_prometheus_Configuration_NewReporter_unchanged : Facts.body_prometheus_Configuration_NewReporter = ["func( configOpts ConfigurationOptions, ) (Reporter, error)", "var opts Options", "if configOpts.Registry != nil { opts.Registerer = configOpts.Registry }", "if configOpts.OnError != nil { opts.OnRegisterError = configOpts.OnError } else { switch c.OnError { case \"stderr\": opts.OnRegisterError = func(err error) { fmt.Fprintf(os.Stderr, \"tally prometheus reporter error: %v\\n\", err) } case \"log\": opts.OnRegisterError = func(err error) { log.Printf(\"tally prometheus reporter error: %v\\n\", err) } case \"none\": opts.OnRegisterError = func(err error) {} default: opts.OnRegisterError = func(err error) { panic(err) } } }", "switch c.TimerType { case \"summary\": opts.DefaultTimerType = SummaryTimerType case \"histogram\": opts.DefaultTimerType = HistogramTimerType }", "if len(c.DefaultHistogramBuckets) > 0 { var values []float64 for _, value := range c.DefaultHistogramBuckets { values = append(values, value.Upper) } opts.DefaultHistogramBuckets = values }", "if len(c.DefaultSummaryObjectives) > 0 { values := make(map[float64]float64) for _, value := range c.DefaultSummaryObjectives { values[value.Percentile] = value.AllowedError } opts.DefaultSummaryObjectives = values }", "reporter := NewReporter(opts)", "path := \"/metrics\"", "if handlerPath := strings.TrimSpace(c.HandlerPath); handlerPath != \"\" { path = handlerPath }", "if addr := strings.TrimSpace(c.ListenAddress); addr == \"\" { http.Handle(path, reporter.HTTPHandler()) } else { mux := http.NewServeMux() mux.Handle(path, reporter.HTTPHandler()) go func() { network := c.ListenNetwork if network == \"\" { network = \"tcp\" } listener, err := net.Listen(network, addr) if err != nil { opts.OnRegisterError(err) return } defer listener.Close() if err = http.Serve(listener, mux); err != nil { opts.OnRegisterError(err) } }() }", "return reporter, nil"] := rfl
 
 theorem body_prometheus_cachedHistogramBucket_ReportSamples_unchanged : Facts.body_prometheus_cachedHistogramBucket_ReportSamples = ["func(value int64)", "for i := int64(0); i < value; i++ { b.metric.histogram.Observe(b.upperBound) }"] := rfl
 
@@ -45,6 +51,14 @@ theorem body_prometheus_reporter_AllocateGauge_unchanged : Facts.body_prometheus
 theorem body_prometheus_reporter_AllocateHistogram_unchanged : Facts.body_prometheus_reporter_AllocateHistogram = ["func( name string, tags map[string]string, buckets tally.Buckets, ) tally.CachedHistogram", "tagKeys := keysFromMap(tags)", "histogramVec, err := r.histogramVec(name, tagKeys, name+\" histogram\", buckets.AsValues())", "if err != nil { r.onRegisterError(err) return noopMetric{} }", "return &cachedMetric{histogram: histogramVec.With(tags)}"] := rfl
 
 theorem body_prometheus_reporter_AllocateTimer_unchanged : Facts.body_prometheus_reporter_AllocateTimer = ["func(name string, tags map[string]string) tally.CachedTimer", "var ( timer tally.CachedTimer err error )", "tagKeys := keysFromMap(tags)", "timerType, buckets, objectives := r.timerConfig(nil)", "switch timerType { case HistogramTimerType: var histogramVec *prom.HistogramVec histogramVec, err = r.histogramVec(name, tagKeys, name+\" histogram\", buckets) if err == nil { t := &cachedMetric{histogram: histogramVec.With(tags)} t.reportTimer = t.reportTimerHistogram timer = t } case SummaryTimerType: var summaryVec *prom.SummaryVec summaryVec, err = r.summaryVec(name, tagKeys, name+\" summary\", objectives) if err == nil { t := &cachedMetric{summary: summaryVec.With(tags)} t.reportTimer = t.reportTimerSummary timer = t } default: err = errUnknownTimerType }", "if err != nil { r.onRegisterError(err) return noopMetric{} }", "return timer"] := rfl
+
+theorem body_prometheus_reporter_Flush_unchanged : Facts.body_prometheus_reporter_Flush = ["func()"] := rfl
+
+theorem body_prometheus_reporter_RegisterCounter_unchanged : Facts.body_prometheus_reporter_RegisterCounter = ["func( name string, tagKeys []string, desc string, ) (*prom.CounterVec, error)", "return r.counterVec(name, tagKeys, desc)"] := rfl
+
+theorem body_prometheus_reporter_RegisterGauge_unchanged : Facts.body_prometheus_reporter_RegisterGauge = ["func( name string, tagKeys []string, desc string, ) (*prom.GaugeVec, error)", "return r.gaugeVec(name, tagKeys, desc)"] := rfl
+
+theorem body_prometheus_reporter_RegisterTimer_unchanged : Facts.body_prometheus_reporter_RegisterTimer = ["func( name string, tagKeys []string, desc string, opts *RegisterTimerOptions, ) (TimerUnion, error)", "timerType, buckets, objectives := r.timerConfig(opts)", "switch timerType { case HistogramTimerType: h, err := r.histogramVec(name, tagKeys, desc, buckets) return TimerUnion{TimerType: timerType, Histogram: h}, err case SummaryTimerType: s, err := r.summaryVec(name, tagKeys, desc, objectives) return TimerUnion{TimerType: timerType, Summary: s}, err }", "return TimerUnion{}, errUnknownTimerType"] := rfl
 
 theorem body_prometheus_reporter_counterVec_unchanged : Facts.body_prometheus_reporter_counterVec = ["func( name string, tagKeys []string, desc string, ) (*prom.CounterVec, error)", "id := canonicalMetricID(name, tagKeys)", "r.Lock()", "defer r.Unlock()", "if ctr, ok := r.counters[id]; ok { return ctr, nil }", "ctr := prom.NewCounterVec( prom.CounterOpts{ Name: name, Help: desc, }, tagKeys, )", "if err := r.registerer.Register(ctr); err != nil { return nil, err }", "r.counters[id] = ctr", "return ctr, nil"] := rfl
 
